@@ -122,9 +122,9 @@ theorem origin_maps_to_point (g mu : ℝ) :
     (∀ i, 1 ≤ i → i < 6 → eval ρ (phi1 i) = 0 ∧ eval ρ (phi2 i) = 0 ∧ eval ρ (phi3 i) = 0) := by
   intro ρ
   refine ⟨?_, ?_, ?_, ?_⟩
-  · simp [phi1, eval, ρ]; ring
-  · simp [phi2, eval, ρ]; ring
-  · simp [phi3, eval, ρ]; ring
+  · simp [phi1, eval, ρ] <;> ring
+  · simp [phi2, eval, ρ] <;> ring
+  · simp [phi3, eval, ρ] <;> ring
   · intro i h1 h6
     interval_cases i <;> simp [phi1, phi2, phi3, eval, ρ]
 
